@@ -92,7 +92,7 @@ def factor(draw, pattern, max_macros=4):
     roots = [pat]  # containers to search for slots: the rule and macro bodies
     for q in range(nmac):
         name = MNAMES[len(macros)]
-        kind = draw(st.sampled_from(["item", "operand", "substring", "times-body", "param", "param"]))
+        kind = draw(st.sampled_from(["item", "operand", "substring", "times-body", "param", "param", "key-substring", "key-whole", "chain"]))
         root = draw(st.sampled_from(roots))
         slots = item_slots(root, [])
         if kind == "item":
@@ -140,6 +140,45 @@ def factor(draw, pattern, max_macros=4):
             nm = list(c[i])[0]
             macros.append({"name": name, "pattern": str(nm)})
             c[i] = {name: c[i][nm]}
+        elif kind in ("key-substring", "key-whole"):
+            # the name of an item that has a body (operand list, times) is a mapping key: a string macro inside it / standing for it
+            cand = [(c, i) for c, i, t in slots if t == "item" and isinstance(c[i], dict) and isinstance(list(c[i])[0], str) and list(c[i])[0] not in OPS
+                    and not list(c[i])[0].startswith(("&", "$", "@")) and "@" not in list(c[i])[0] and list(c[i])[0] != "times" and len(list(c[i])[0]) >= 2
+                    and (isinstance(c[i][list(c[i])[0]], list) or kind == "key-substring")]
+            if not cand:
+                continue
+            c, i = draw(st.sampled_from(cand))
+            s_ = list(c[i])[0]
+            if kind == "key-whole":
+                a, b = 0, len(s_)
+            else:
+                a = draw(st.integers(0, len(s_) - 1))
+                b = draw(st.integers(a + 1, len(s_)))
+                if (a, b) == (0, len(s_)):
+                    b = len(s_) - 1
+            # the reference is followed by the end of the name or by a character that cannot belong to a macro name
+            if b < len(s_) and (s_[b].isalnum() or s_[b] == "_"):
+                b = len(s_)
+                if a == 0:
+                    a = 1
+            macros.append({"name": name, "pattern": s_[a:b]})
+            c[i] = {(s_[:a] + name + s_[b:] if k_ == s_ else k_): v_ for k_, v_ in c[i].items()}
+        elif kind == "chain":
+            # a string macro whose own body refers to a macro listed after it (`@jcc: j@cc`, `@cc: ne`)
+            cand = [m_ for m_ in macros if isinstance(m_["pattern"], str) and "args" not in m_ and len(m_["pattern"]) >= 2 and "@" not in m_["pattern"]]
+            if not cand:
+                continue
+            m_ = draw(st.sampled_from(cand))
+            s_ = m_["pattern"]
+            a = draw(st.integers(0, len(s_) - 1))
+            b = draw(st.integers(a + 1, len(s_)))
+            if (a, b) == (0, len(s_)):
+                a = 1
+            # a reference is never directly followed by a name character (it would read as a longer macro name)
+            if b < len(s_) and (s_[b].isalnum() or s_[b] == "_"):
+                b = len(s_)
+            macros.append({"name": name, "pattern": s_[a:b]})
+            m_["pattern"] = s_[:a] + name + s_[b:]
         else:  # parameterised
             cand = [(c, i) for c, i, t in slots if t == "item" and isinstance(c[i], dict) and not contains_macro_use(c[i]) and "times" not in c[i]]
             if not cand:
@@ -224,9 +263,10 @@ def inline_all(tree, macros):
                         actuals = {f: node[f] for f in m["args"] if f in node}
                         return go(instantiate(m, actuals))
                     if isinstance(m["pattern"], str):
-                        return {m["pattern"]: go(node[k])}
+                        # the macro stands for the name of the item; its body (operand list / times) and sibling keys stay
+                        return {(go(m["pattern"]) if k2 == k else k2): go(v2) for k2, v2 in node.items()}
                     return go(body_of(m))
-            return {k: go(v) for k, v in node.items()}
+            return {(go(k) if isinstance(k, str) and "@" in k else k): go(v) for k, v in node.items()}
         return node
 
     return go(tree)
